@@ -5,8 +5,17 @@ use crate::uf::*;
 use crate::uf_tf;
 use crate::util::*;
 
-//@ id=C15 tier=quick to=1200 cfg=std exh=1 desc="ln, log2 of every valid x <= 0 are invalid; ln_1p of every valid x <= -1 is invalid (early returns on the real code)"
-#[cfg_attr(kani, kani::proof)]
+//@ id=C15 tier=quick to=1200 cfg=std exh=1 stub=1 stubs="exp/exp2/exp_m1 and the double-double operators -> havoc: the domain errors are early returns that do not involve them" desc="ln, log2 of every valid x <= 0 are invalid; ln_1p of every valid x <= -1 is invalid (early returns on the real code)"
+#[cfg_attr(all(kani, feature = "stubs"), kani::proof)]
+#[cfg_attr(all(kani, feature = "stubs"), kani::unwind(17))]
+#[cfg_attr(all(kani, feature = "stubs"), kani::stub(twofloat::TwoFloat::exp, crate::uf::havoc_unary))]
+#[cfg_attr(all(kani, feature = "stubs"), kani::stub(twofloat::TwoFloat::exp2, crate::uf::havoc_unary))]
+#[cfg_attr(all(kani, feature = "stubs"), kani::stub(twofloat::TwoFloat::exp_m1, crate::uf::havoc_unary))]
+#[cfg_attr(all(kani, feature = "stubs"), kani::stub(<&twofloat::TwoFloat as core::ops::Mul<&twofloat::TwoFloat>>::mul, crate::uf::havoc_tt))]
+#[cfg_attr(all(kani, feature = "stubs"), kani::stub(<&twofloat::TwoFloat as core::ops::Add<&twofloat::TwoFloat>>::add, crate::uf::havoc_tt))]
+#[cfg_attr(all(kani, feature = "stubs"), kani::stub(<&twofloat::TwoFloat as core::ops::Sub<&twofloat::TwoFloat>>::sub, crate::uf::havoc_tt))]
+#[cfg_attr(all(kani, feature = "stubs"), kani::stub(<&twofloat::TwoFloat as core::ops::Add<&f64>>::add, crate::uf::havoc_tf64))]
+#[cfg_attr(all(kani, feature = "stubs"), kani::stub(<&twofloat::TwoFloat as core::ops::Sub<&f64>>::sub, crate::uf::havoc_tf64))]
 pub fn c15_domain_errors() {
     let x = any_valid();
     let s = crate::c06::exact_sign(x);
@@ -43,8 +52,17 @@ pub fn c15_log_structure() {
     reached();
 }
 
-//@ id=C15 tier=quick to=1200 cfg=std exh=1 desc="log10 of every valid x <= 0 is invalid (NaN from ln propagates through the real double-double division)"
-#[cfg_attr(kani, kani::proof)]
+//@ id=C15 tier=quick to=1200 cfg=std exh=1 stub=1 stubs="exp and the +,-,* operators -> havoc (ln returns NaN before using them); the division ln(x)/LN_10 is the real code" desc="log10 of every valid x <= 0 is invalid (NaN from ln propagates through the real double-double division)"
+#[cfg_attr(all(kani, feature = "stubs"), kani::proof)]
+#[cfg_attr(all(kani, feature = "stubs"), kani::unwind(17))]
+#[cfg_attr(all(kani, feature = "stubs"), kani::stub(twofloat::TwoFloat::exp, crate::uf::havoc_unary))]
+#[cfg_attr(all(kani, feature = "stubs"), kani::stub(twofloat::TwoFloat::exp2, crate::uf::havoc_unary))]
+#[cfg_attr(all(kani, feature = "stubs"), kani::stub(twofloat::TwoFloat::exp_m1, crate::uf::havoc_unary))]
+#[cfg_attr(all(kani, feature = "stubs"), kani::stub(<&twofloat::TwoFloat as core::ops::Mul<&twofloat::TwoFloat>>::mul, crate::uf::havoc_tt))]
+#[cfg_attr(all(kani, feature = "stubs"), kani::stub(<&twofloat::TwoFloat as core::ops::Add<&twofloat::TwoFloat>>::add, crate::uf::havoc_tt))]
+#[cfg_attr(all(kani, feature = "stubs"), kani::stub(<&twofloat::TwoFloat as core::ops::Sub<&twofloat::TwoFloat>>::sub, crate::uf::havoc_tt))]
+#[cfg_attr(all(kani, feature = "stubs"), kani::stub(<&twofloat::TwoFloat as core::ops::Add<&f64>>::add, crate::uf::havoc_tf64))]
+#[cfg_attr(all(kani, feature = "stubs"), kani::stub(<&twofloat::TwoFloat as core::ops::Sub<&f64>>::sub, crate::uf::havoc_tf64))]
 pub fn c15_log10_domain() {
     let x = any_valid();
     assume(crate::c06::exact_sign(x) <= 0);
